@@ -64,7 +64,7 @@ var interestingOIDs = [][]int{
 	{1, 3, 6, 1, 5, 5, 7, 1, 1}, {1, 3, 6, 1, 5, 5, 7, 1, 11}, {1, 3, 6, 1, 5, 5, 7, 1, 7}, {1, 3, 6, 1, 5, 5, 7, 1, 8}, {1, 3, 6, 1, 4, 1, 11129, 2, 4, 2}, {1, 3, 6, 1, 4, 1, 11129, 2, 4, 3},
 	{1, 3, 6, 1, 5, 5, 7, 48, 1}, {1, 3, 6, 1, 5, 5, 7, 48, 2}, {1, 3, 6, 1, 5, 5, 7, 48, 3}, {1, 3, 6, 1, 5, 5, 7, 48, 5},
 	{1, 2, 840, 113549, 1, 1, 1}, {1, 2, 840, 113549, 1, 1, 7}, {1, 2, 840, 113549, 1, 1, 10}, {1, 2, 840, 113549, 1, 1, 11}, {1, 2, 840, 113549, 1, 1, 5}, {1, 2, 840, 113549, 1, 1, 4},
-	{1, 2, 840, 10040, 4, 1}, {1, 2, 840, 10040, 4, 3}, {1, 2, 840, 10045, 2, 1}, {1, 2, 840, 10045, 4, 3, 2}, {1, 3, 101, 112}, {2, 5, 8, 1, 1},
+	{1, 2, 840, 10040, 4, 1}, {1, 2, 840, 10040, 4, 3}, {1, 2, 840, 10045, 2, 1}, {1, 2, 840, 10045, 4, 3, 2}, {1, 3, 101, 112}, {1, 3, 101, 110}, {1, 3, 101, 111}, {1, 3, 101, 113}, {1, 3, 101, 109}, {1, 3, 101, 114}, {2, 5, 8, 1, 1},
 	{1, 3, 132, 0, 33}, {1, 2, 840, 10045, 3, 1, 7}, {1, 3, 132, 0, 34}, {1, 3, 132, 0, 35}, {1, 2, 840, 10045, 3, 1, 1}, {1, 3, 132, 0, 10},
 	{2, 5, 4, 3}, {2, 5, 4, 6}, {2, 5, 4, 5}, {1, 2, 840, 113549, 1, 9, 1}, {1, 2, 840, 113549, 1, 9, 14},
 	{1, 3, 6, 1, 5, 5, 7, 3, 1}, {2, 5, 29, 37, 0}, {1, 3, 6, 1, 4, 1, 11129, 2, 4, 4},
